@@ -98,6 +98,8 @@ def roundtrip(case, rec, prop):
         for key, t, v in case['items']:
             one = {'api': api, 'items': [(key, t, v)]}
             classes = values.value_classes(idx, t, v)
+            if values.has_subclass_instance(v):
+                classes = classes | {'subclass_instance_in_parent_slot'}
             rec.case(core.h64(repr((M.freeze(key), repr(v)))), bool(classes & NONTRIVIAL),
                      classes=sorted(classes) + ['top:' + key[0]],
                      sample=lambda: {'type': key, 'value': repr(v)[:400]})
@@ -171,7 +173,8 @@ def roundtrip(case, rec, prop):
                     if not ref_json.json_equal(json.loads(json.dumps(again)), json.loads(json.dumps(enc_obj))):
                         viol('reencode-differs', 'encode(decode(encode(v))) != encode(v): %s vs %s' % (
                             json.dumps(again)[:300], enc_str[:300]))
-                    if M.Index(api).base(t)[0] == 'ref' and values.norm_roundtrip(idx, t, v) == v:
+                    if M.Index(api).base(t)[0] == 'ref' and values.norm_roundtrip(idx, t, v) == v \
+                            and not values.has_subclass_instance(v):
                         try:
                             if not (dec == obj) or (dec != obj):
                                 viol('eq-disagrees', 'generated == says the round-tripped value differs (%s)' % mode)
@@ -222,5 +225,5 @@ def run(case, rec):
 
 
 def parts(ctx):
-    return [Part('roundtrip', run, strategy=pyrt.typed_values(), n=ctx.n(640, 8000), budget_s=ctx.n(120, 3000)),
-            Part('roundtrip_wild', run, strategy=pyrt.typed_values(wild=True), n=ctx.n(160, 2000), budget_s=ctx.n(60, 1500))]
+    return [Part('roundtrip', run, strategy=pyrt.typed_values(subclass=True), n=ctx.n(640, 8000), budget_s=ctx.n(120, 3000)),
+            Part('roundtrip_wild', run, strategy=pyrt.typed_values(wild=True, subclass=True), n=ctx.n(160, 2000), budget_s=ctx.n(60, 1500))]
